@@ -799,9 +799,13 @@ static bool compile_builtin_call(CG *cg, ASTNode *node) {
         return true;
     }
     if (strcmp(name, "array_slice") == 0 && argc == 3) {
+        /* array_slice(arr, start, length) (docs/STDLIB.md; native runtime and the
+         * compile-time evaluator agree); OP_ARR_SLICE takes start and END */
         compile_expr(cg, args[0]); /* array */
         compile_expr(cg, args[1]); /* start */
-        compile_expr(cg, args[2]); /* end */
+        emit_op(cg, OP_DUP);
+        compile_expr(cg, args[2]); /* length */
+        emit_op(cg, OP_ADD);       /* end = start + length */
         emit_op(cg, OP_ARR_SLICE);
         return true;
     }
